@@ -75,10 +75,25 @@ def view(engine, st, v):
         return ExtView(v.ninf, v.v)
     if isinstance(v, VTuple):
         return tuple(view(engine, st, i) for i in v.items)
+    if isinstance(v, VFunc):
+        return FuncView(engine, st, v)
     if isinstance(v, VIter):
         l, pos = st.iters[v.iid]
         return IterView(pos, ListView(engine, st, l))
     return v
+
+
+class FuncView:
+    """a callable value inside spec text: apply it to an object view (pure)"""
+    def __init__(self, engine, st, vf):
+        self._e, self._st, self.v = engine, st, vf
+
+    def __call__(self, x):
+        from .builtins_ import apply_pure
+        arg = x.v if hasattr(x, 'v') else x
+        sc = self._st.fork()
+        r = apply_pure(self._e, sc, self.v, [arg])
+        return view(self._e, sc, r)
 
 
 class IterView:
@@ -157,6 +172,9 @@ class Ctx:
 
     def has(self, name):
         return name in self._names or name in self._extra
+
+    def _view_list(self, vl):
+        return ListView(self._e, self._st, vl)
 
     def raw(self, name):
         v = self._names[name]
